@@ -7,18 +7,32 @@
 // Implementation side: the REAL decision and proxy applications (assembly
 // harness: real configuration loader, mechanisms, rule factory, repository,
 // rule executor, the real middleware chain of decision/service.go and
-// proxy/service.go) with generated `trusted_proxies` lists.  Requests are raw
-// HTTP/1.1 bytes (arbitrary header-name casing, repeated headers) parsed by
-// net/http exactly as its server does and served in-process with a chosen
-// RemoteAddr (arbitrary peers: IPv4, IPv6, IPv4-mapped, zoned, unix socket,
-// garbage); a smaller sub-stream goes over real loopback sockets from different
-// 127.0.0.0/8 source addresses.
+// proxy/service.go) with generated `trusted_proxies` lists for BOTH services.
+// Requests are raw HTTP/1.x bytes (arbitrary header-name casing, repeated
+// headers, white space around values, bodies, Upgrade, HTTP/1.0, absolute-form
+// targets) parsed by net/http exactly as its server does and served in-process
+// with a chosen RemoteAddr (arbitrary peers: IPv4, IPv6, IPv4-mapped, zoned,
+// unix socket, garbage); a smaller sub-stream goes over real loopback sockets
+// from different 127.0.0.0/8 source addresses.
 //
-// Observables: HTTP status, matched rule, the request view the pipeline sees
-// (echoed by a real `header` finalizer: method, scheme, host, raw path, query,
-// client address list, the forwarded headers visible through Headers()/Header()),
-// and in proxy mode what the echo upstream received (method, request URI, the
-// seven forwarded headers).
+// Observables per request
+//   - HTTP status, matched rule, the request view the pipeline sees (echoed by
+//     a real `header` finalizer: method, scheme, host, path, raw path, query,
+//     URL string, client address list, the COMPLETE Headers() map, Header(n)
+//     probes), and in proxy mode what the echo upstream received (method, the
+//     seven forwarding headers);
+//   - the RAW observation: every response header and the body, the upstream
+//     request line / Host / all headers / body, the captured zerolog output of
+//     the application (access log, request dump at trace level).  It is used
+//     for (a) the 2-safety pair: the same request WITHOUT the seven headers is
+//     served too and every sink is compared, (b) the taint search: no
+//     distinctive piece of a forwarded header value may occur in any sink.
+//
+// What is NOT taken from the code under test: the peer host (the driver's own
+// net.SplitHostPort), the trusted_proxies lists (the strings written to the
+// configuration file; that the loaded configuration carries the same lists is
+// an extra compared bit), the "/" dispatch (done in the Coq model from the
+// observed answers of net.ParseIP / net.ParseCIDR).
 package c09
 
 import (
@@ -26,15 +40,17 @@ import (
 	"encoding/base64"
 	"encoding/json"
 	"fmt"
+	"io"
 	"net"
 	"net/http"
 	"net/url"
+	"os"
+	"reflect"
 	"sort"
 	"strings"
 	"testing"
 	"time"
 
-	"github.com/dadrus/heimdall/internal/x/httpx"
 	"github.com/dadrus/heimdall/internal/zzverif/assembly"
 	"github.com/dadrus/heimdall/internal/zzverif/vf"
 )
@@ -44,24 +60,70 @@ var fwdNames = []string{
 	"X-Forwarded-Uri", "X-Forwarded-Path", "X-Forwarded-Method",
 }
 
+func isFwdName(name string) bool {
+	for _, n := range fwdNames {
+		if strings.EqualFold(name, n) {
+			return true
+		}
+	}
+
+	return false
+}
+
+// names that look like forwarding headers but are not among the seven: heimdall must neither strip nor honour them
+var c09Alike = map[string][]string{
+	"X-Forwarded-Port":         {"8443", "443"},
+	"X-Forwarded-Prefix":       {"/pst", "/sec/a"},
+	"X-Forwarded-Scheme":       {"https"},
+	"X-Forwarded-Ssl":          {"on"},
+	"X-Forwarded-Server":       {"evil-server.example.com"},
+	"X-Forwarded-Protocol":     {"https"},
+	"X-Forwarded":              {"for=7.7.7.7;proto=https"},
+	"Forwarded-For":            {"7.7.7.7"},
+	"X-Real-Ip":                {"7.7.7.7"},
+	"X-Client-Ip":              {"7.7.7.8"},
+	"X-Cluster-Client-Ip":      {"7.7.7.9"},
+	"True-Client-Ip":           {"7.7.7.10"},
+	"Cf-Connecting-Ip":         {"7.7.7.11"},
+	"X-Original-Url":           {"/pst/a?o=1", "/sec/a"},
+	"X-Original-Uri":           {"/pst/a"},
+	"X-Rewrite-Url":            {"/sec/a"},
+	"X-Original-Method":        {"POST"},
+	"X-Http-Method-Override":   {"POST", "DELETE"},
+	"X-Http-Method":            {"POST"},
+	"X-Method-Override":        {"POST"},
+	"X-Original-Host":          {"evil-orig.example.com"},
+	"X-Host":                   {"evil-xhost.example.com"},
+	"X-Original-Forwarded-For":  {"7.7.7.12"},
+	"X-Original-Forwarded-Host": {"evil-xofh.example.com"},
+	"X-Scheme":                 {"https"},
+	"X-Url-Scheme":             {"https"},
+	"Front-End-Https":          {"on"},
+	"Via":                      {"1.1 evil-via"},
+}
+
 // ---------------------------------------------------------------- configuration and rules
 
-const viewTemplate = `{{ dict "method" .Request.Method "scheme" .Request.URL.Scheme "host" .Request.URL.Host "path" .Request.URL.Path "rawpath" .Request.URL.RawPath "query" .Request.URL.RawQuery "ips" .Request.ClientIPAddresses "hdrs" .Request.Headers "h0" (.Request.Header "forwarded") "h1" (.Request.Header "x-forwarded-for") "h2" (.Request.Header "X-Forwarded-Proto") "h3" (.Request.Header "X-FORWARDED-HOST") "h4" (.Request.Header "X-Forwarded-Uri") "h5" (.Request.Header "X-Forwarded-Path") "h6" (.Request.Header "X-Forwarded-Method") | toJson | b64enc }}`
+const viewTemplate = `{{ dict "method" .Request.Method "scheme" .Request.URL.Scheme "host" .Request.URL.Host "path" .Request.URL.Path "rawpath" .Request.URL.RawPath "query" .Request.URL.RawQuery "url" .Request.URL.String "ips" .Request.ClientIPAddresses "hdrs" .Request.Headers "h0" (.Request.Header "forwarded") "h1" (.Request.Header "x-forwarded-for") "h2" (.Request.Header "X-Forwarded-Proto") "h3" (.Request.Header "X-FORWARDED-HOST") "h4" (.Request.Header "X-Forwarded-Uri") "h5" (.Request.Header "X-Forwarded-Path") "h6" (.Request.Header "X-Forwarded-Method") "hc" (.Request.Header "x-custom") | toJson | b64enc }}`
 
-func c09Config(proxy bool, trusted []string, setTrusted bool) string {
-	svc := "decision"
-	if proxy {
-		svc = "proxy"
-	}
-
+func c09Config(c c09Case) string {
 	var sb strings.Builder
 
-	sb.WriteString("serve:\n  " + svc + ":\n    timeout:\n      read: 5s\n")
+	sb.WriteString("serve:\n")
 
-	if setTrusted {
-		b, _ := json.Marshal(trusted)
-		sb.WriteString("    trusted_proxies: " + string(b) + "\n")
+	for _, svc := range []struct {
+		name string
+		tp   *[]string
+	}{{"decision", c.DecisionTP}, {"proxy", c.ProxyTP}} {
+		sb.WriteString("  " + svc.name + ":\n    timeout:\n      read: 5s\n")
+
+		if svc.tp != nil {
+			b, _ := json.Marshal(*svc.tp)
+			sb.WriteString("    trusted_proxies: " + string(b) + "\n")
+		}
 	}
+
+	sb.WriteString("log:\n  level: " + c.LogLevel + "\n")
 
 	sb.WriteString(`mechanisms:
   authenticators:
@@ -83,13 +145,14 @@ type c09Rule struct {
 }
 
 // the fixed rule set: literal paths, one constraint each, all with backtracking
-// to the catch-all rule "other"
+// to the catch-all rule "other"; "/" has its own rule (the catch-all does not match it)
 var c09Rules = []c09Rule{
 	{ID: "pub", Path: "/pub/a", Method: "GET"},
 	{ID: "pst", Path: "/pst/a", Method: "POST"},
 	{ID: "sec", Path: "/sec/a", Scheme: "https"},
 	{ID: "hst", Path: "/hst/a", Host: "a.example.com"},
 	{ID: "any", Path: "/any/a"},
+	{ID: "root", Path: "/"},
 	{ID: "other", Path: "/**"},
 }
 
@@ -136,15 +199,31 @@ type c09Req struct {
 	Method  string   `json:"method"`
 	Target  string   `json:"target"`
 	Host    string   `json:"host"`
+	Proto   string   `json:"proto,omitempty"` // "" = HTTP/1.1, "HTTP/1.0", "h2" (in-process: ProtoMajor 2 on the parsed request)
 	Headers []c09Hdr `json:"headers"`
+	Body    string   `json:"body,omitempty"`
 	Socket  bool     `json:"socket,omitempty"` // sent over a real loopback connection
 }
 
 type c09Case struct {
-	Proxy      bool     `json:"proxy"`
-	Trusted    []string `json:"trusted_proxies"`
-	SetTrusted bool     `json:"set"`
-	Req        c09Req   `json:"req"`
+	Proxy      bool      `json:"proxy"`
+	DecisionTP *[]string `json:"decision_trusted_proxies"` // nil: option not set
+	ProxyTP    *[]string `json:"proxy_trusted_proxies"`
+	LogLevel   string    `json:"log_level"`
+	Req        c09Req    `json:"req"`
+}
+
+func (c c09Case) own() []string {
+	tp := c.DecisionTP
+	if c.Proxy {
+		tp = c.ProxyTP
+	}
+
+	if tp == nil {
+		return nil
+	}
+
+	return *tp
 }
 
 var (
@@ -158,7 +237,8 @@ var (
 	}
 	c09Invalid = []string{
 		"not-an-ip", "", "10.0.0.256", "fe80::1%eth0", "10.0.0.0/33", "/", "1.2.3.4/", " 10.0.0.1", "10.0.0.1 ",
-		"localhost", "2001:db8::/129", "10.0.0.1:80", "[::1]", "*", "10.0.0", "::g",
+		"localhost", "2001:db8::/129", "10.0.0.1:80", "[::1]", "*", "10.0.0", "::g", "10.0.0.1/", "/24", "::/-1",
+		"0.0.0.0", "::", "10.0.0.0/8/8",
 	}
 	c09Peers = []string{
 		"10.0.0.1:1234", "10.1.2.3:80", "192.168.1.77:5555", "[::1]:4444", "[2001:db8::1]:80", "[2001:db8::2]:80",
@@ -167,20 +247,24 @@ var (
 	}
 	c09BadPeers = []string{
 		"@", "", "garbage", "10.0.0.1", "256.1.1.1:80", "[fe80::1%25eth0]:80", "::1:80", "localhost:80",
-		"/var/run/heimdall.sock", "[not-an-ip]:80", "10.0.0.1:", ":80", "[]:80", "10.0.0.256:1",
+		"/var/run/heimdall.sock", "[not-an-ip]:80", "10.0.0.1:", ":80", "[]:80", "10.0.0.256:1", "[::1]", "[10.0.0.1]:80",
+		"127.0.0.1", "[::1", "::1]:80", "0.0.0.0", "unix", "pipe",
 	}
-	c09Methods = []string{"GET", "POST", "PUT"}
+	c09Methods = []string{"GET", "GET", "POST", "POST", "PUT", "DELETE", "PATCH", "HEAD", "OPTIONS"}
 	c09Hosts   = []string{"a.example.com", "b.example.com:8080", "heimdall.local"}
 	c09Paths   = []string{"/pub/a", "/pst/a", "/sec/a", "/hst/a", "/any/a", "/other", "/x%20y", "/", "/pub/a/b"}
 	c09Queries = []string{"", "", "x=1", "b=2&a=1", "q=a%20b"}
 
 	c09Values = map[string][]string{
-		"X-Forwarded-Proto": {"https", "http", "", "ftp", "HTTPS"},
-		"X-Forwarded-Host":  {"a.example.com", "evil.example.com", "admin.example.com:443", "", "A.example.com"},
+		"X-Forwarded-Proto": {"https", "http", "", "ftp", "HTTPS", "https, http", "https,http"},
+		"X-Forwarded-Host": {
+			"a.example.com", "evil.example.com", "admin.example.com:443", "", "A.example.com",
+			"evil.example.com, a.example.com", "a.example.com,evil.example.com",
+		},
 		"X-Forwarded-Uri": {
 			"/pub/a", "/pst/a?x=1", "/sec/a?b=2&a=1", "/hst/a", "/any/a", "?q=1", "/x%20y", "%zz", "",
 			"http://other.example.com/pst/a?z=1", "//evil/path", "/a b", "/pub/a#frag", "/any/a?x=1;y=2", "any/a", "/sec/a?",
-			"/hst/a?%zz=1", "*",
+			"/hst/a?%zz=1", "*", "/",
 		},
 		"X-Forwarded-Path":   {"/pst/a", "/x", ""},
 		"X-Forwarded-Method": {"POST", "GET", "DELETE", "", "get"},
@@ -194,6 +278,26 @@ var (
 		},
 	}
 )
+
+// a value that carries a marker unique to the case (so that a leak is recognisable wherever it surfaces)
+func c09Marked(r *vf.Rand, name, mk string) string {
+	switch name {
+	case "X-Forwarded-Proto":
+		return vf.Pick(r, []string{mk, "https"})
+	case "X-Forwarded-Host":
+		return mk + ".evil.example.com"
+	case "X-Forwarded-Uri":
+		return vf.Pick(r, []string{"/pst/a?t=" + mk, "/" + mk, "/sec/a?" + mk + "=1", "/" + mk + "?x=1"})
+	case "X-Forwarded-Path":
+		return "/" + mk
+	case "X-Forwarded-Method":
+		return vf.Pick(r, []string{strings.ToUpper(mk), "POST"})
+	case "X-Forwarded-For":
+		return vf.Pick(r, []string{"1.1.1.1, " + mk, mk, mk + ", 2.2.2.2"})
+	default:
+		return vf.Pick(r, []string{"for=" + mk, "for=" + mk + ";proto=https;host=" + mk + ".example.com", "for=1.2.3.4, for=" + mk})
+	}
+}
 
 func c09Casing(r *vf.Rand, name string) string {
 	switch r.Intn(5) {
@@ -217,43 +321,237 @@ func c09Casing(r *vf.Rand, name string) string {
 	return name
 }
 
-func c09GenTrusted(r *vf.Rand) ([]string, bool) {
-	switch r.Intn(10) {
+func c09Pad(r *vf.Rand, v string) string {
+	switch r.Intn(12) {
 	case 0:
-		return nil, false // option absent
+		return " " + v + " "
 	case 1:
-		return []string{}, true
+		return "\t" + v
+	case 2:
+		return v + " \t"
 	}
 
-	n := r.Range(1, 4)
+	return v
+}
+
+// ---- addresses: a small universe so that entries, ranges and peers interact
+
+func c09RandV4(r *vf.Rand) net.IP {
+	switch r.Intn(4) {
+	case 0:
+		return net.IPv4(10, byte(r.Intn(3)), byte(r.Intn(3)), byte(r.Intn(256))).To4()
+	case 1:
+		return net.IPv4(192, 168, byte(r.Intn(3)), byte(r.Intn(256))).To4()
+	case 2:
+		return net.IPv4(127, 0, byte(r.Intn(3)), byte(r.Intn(8))).To4()
+	}
+
+	return net.IPv4(byte(r.Intn(224)), byte(r.Intn(256)), byte(r.Intn(256)), byte(r.Intn(256))).To4()
+}
+
+func c09RandV6(r *vf.Rand) net.IP {
+	ip := make(net.IP, 16)
+
+	switch r.Intn(4) {
+	case 0:
+		copy(ip, net.ParseIP("2001:db8::"))
+		ip[5] = byte(r.Intn(3))
+		ip[15] = byte(r.Intn(8))
+	case 1:
+		copy(ip, net.ParseIP("fe80::"))
+		ip[15] = byte(r.Intn(8))
+	case 2:
+		copy(ip, net.ParseIP("::1"))
+		ip[15] = byte(r.Intn(4))
+	default:
+		for i := range ip {
+			ip[i] = byte(r.Intn(256))
+		}
+
+		ip[0] = 0x20
+	}
+
+	return ip
+}
+
+func c09IPText(r *vf.Rand, ip net.IP) string {
+	if v4 := ip.To4(); v4 != nil && len(ip) == 4 {
+		if r.Chance(15) {
+			return "::ffff:" + v4.String()
+		}
+
+		return v4.String()
+	}
+
+	return ip.String()
+}
+
+func c09RandEntry(r *vf.Rand) string {
+	switch k := r.Intn(100); {
+	case k < 12:
+		return vf.Pick(r, c09SingleIPs)
+	case k < 24:
+		return vf.Pick(r, c09CIDRs)
+	case k < 40:
+		return vf.Pick(r, c09Invalid)
+	case k < 55:
+		return c09IPText(r, c09RandV4(r))
+	case k < 65:
+		return c09RandV6(r).String()
+	case k < 85:
+		bits := vf.Pick(r, []int{0, 8, 12, 16, 20, 22, 23, 24, 25, 28, 30, 31, 32})
+		if r.Chance(10) {
+			return "::ffff:" + c09RandV4(r).String() + fmt.Sprintf("/%d", 96+bits)
+		}
+
+		return c09RandV4(r).String() + fmt.Sprintf("/%d", bits) // host bits may be set: ParseCIDR masks them
+	default:
+		bits := vf.Pick(r, []int{0, 10, 32, 33, 47, 48, 56, 64, 96, 104, 120, 126, 127, 128})
+
+		return c09RandV6(r).String() + fmt.Sprintf("/%d", bits)
+	}
+}
+
+func c09GenList(r *vf.Rand) *[]string {
+	switch k := r.Intn(20); {
+	case k < 2:
+		return nil // option absent
+	case k < 4:
+		return &[]string{}
+	case k < 14:
+		n := r.Range(1, 4)
+		out := make([]string, 0, n)
+
+		for i := 0; i < n; i++ {
+			out = append(out, c09RandEntry(r))
+		}
+
+		return &out
+	}
+
+	// a long list with neighbouring, nested and duplicate ranges
+	n := r.Range(5, 30)
 	out := make([]string, 0, n)
+	base := c09RandV4(r)
 
 	for i := 0; i < n; i++ {
 		switch k := r.Intn(10); {
 		case k < 4:
-			out = append(out, vf.Pick(r, c09SingleIPs))
-		case k < 8:
-			out = append(out, vf.Pick(r, c09CIDRs))
+			ip := make(net.IP, 4)
+			copy(ip, base)
+			bits := vf.Pick(r, []int{23, 24, 25, 26, 28, 30, 32})
+			ip[2] = base[2] + byte(r.Intn(3))
+			ip[3] = byte(r.Intn(4)) << 6
+			out = append(out, fmt.Sprintf("%s/%d", ip.String(), bits))
+		case k < 5 && len(out) > 0:
+			out = append(out, vf.Pick(r, out))
 		default:
-			out = append(out, vf.Pick(r, c09Invalid))
+			out = append(out, c09RandEntry(r))
 		}
 	}
 
-	return out, true
+	return &out
 }
 
-func c09GenReq(r *vf.Rand) c09Req {
+func c09FlipBit(ip net.IP, bit int) {
+	if bit >= 0 && bit < len(ip)*8 {
+		ip[bit/8] ^= 0x80 >> (bit % 8)
+	}
+}
+
+// a peer aimed at one entry of the list: inside it, or just outside it
+func c09PeerFor(r *vf.Rand, entry, def string) string {
+	inside := r.Chance(60)
+	join := func(ip net.IP) string {
+		if v4 := ip.To4(); v4 != nil && r.Chance(25) {
+			return "[::ffff:" + v4.String() + "]:4711"
+		}
+
+		return net.JoinHostPort(ip.String(), "4711")
+	}
+
+	if strings.Contains(entry, "/") {
+		_, n, err := net.ParseCIDR(entry)
+		if err != nil {
+			return def
+		}
+
+		ip := make(net.IP, len(n.IP))
+		copy(ip, n.IP)
+
+		for i := range ip { // random host bits
+			ip[i] |= ^n.Mask[i] & byte(r.Intn(256))
+		}
+
+		if !inside {
+			ones, _ := n.Mask.Size()
+			switch {
+			case ones == 0:
+				return def
+			case r.Chance(70):
+				c09FlipBit(ip, ones-1) // the neighbouring range
+			default:
+				c09FlipBit(ip, r.Intn(ones))
+			}
+		}
+
+		return join(ip)
+	}
+
+	ip := net.ParseIP(entry)
+	if ip == nil {
+		return vf.Pick(r, c09BadPeers)
+	}
+
+	if v4 := ip.To4(); v4 != nil {
+		ip = v4
+	}
+
+	out := make(net.IP, len(ip))
+	copy(out, ip)
+
+	if !inside {
+		switch r.Intn(3) {
+		case 0:
+			out[len(out)-1] ^= 1
+		case 1:
+			c09FlipBit(out, len(out)*8-1-r.Intn(16))
+		default: // same leading bits, different tail (a single address is not a range)
+			for i := len(out) / 2; i < len(out); i++ {
+				out[i] = byte(r.Intn(256))
+			}
+		}
+	}
+
+	return join(out)
+}
+
+func c09GenReq(r *vf.Rand, mk string) c09Req {
 	q := c09Req{Method: vf.Pick(r, c09Methods), Host: vf.Pick(r, c09Hosts), TLS: r.Chance(12)}
 
-	if r.Chance(22) {
+	switch k := r.Intn(100); {
+	case k < 18:
 		q.Peer = vf.Pick(r, c09BadPeers)
-	} else {
+	case k < 45:
 		q.Peer = vf.Pick(r, c09Peers)
+	case k < 75:
+		q.Peer = net.JoinHostPort(c09RandV4(r).String(), fmt.Sprint(1024+r.Intn(60000)))
+	default:
+		q.Peer = net.JoinHostPort(c09RandV6(r).String(), fmt.Sprint(1024+r.Intn(60000)))
 	}
 
 	q.Target = vf.Pick(r, c09Paths)
 	if qs := vf.Pick(r, c09Queries); qs != "" {
 		q.Target += "?" + qs
+	}
+
+	switch k := r.Intn(100); {
+	case k < 7:
+		q.Proto = "HTTP/1.0"
+	case k < 15:
+		q.Proto = "h2"
+	case k < 20: // absolute-form request target
+		q.Target = "http://" + vf.Pick(r, c09Hosts) + q.Target
 	}
 
 	// density of forwarded headers: none / sparse / dense
@@ -270,7 +568,21 @@ func c09GenReq(r *vf.Rand) c09Req {
 		}
 
 		for k := 0; k < reps; k++ {
-			q.Headers = append(q.Headers, c09Hdr{c09Casing(r, name), vf.Pick(r, c09Values[name])})
+			v := vf.Pick(r, c09Values[name])
+			if r.Chance(40) {
+				v = c09Marked(r, name, mk)
+			}
+
+			q.Headers = append(q.Headers, c09Hdr{c09Casing(r, name), c09Pad(r, v)})
+		}
+	}
+
+	if r.Chance(35) { // look-alike names
+		names := assembly.SortedKeys(c09Alike)
+
+		for k := r.Range(1, 3); k > 0; k-- {
+			n := vf.Pick(r, names)
+			q.Headers = append(q.Headers, c09Hdr{c09Casing(r, n), vf.Pick(r, c09Alike[n])})
 		}
 	}
 
@@ -282,6 +594,17 @@ func c09GenReq(r *vf.Rand) c09Req {
 		q.Headers = append(q.Headers, c09Hdr{"Cookie", "a=b"})
 	}
 
+	if r.Chance(6) {
+		q.Headers = append(q.Headers, c09Hdr{"Upgrade", "websocket"}, c09Hdr{"Connection", "Upgrade"})
+	} else if r.Chance(50) {
+		q.Headers = append(q.Headers, c09Hdr{"Connection", "close"})
+	}
+
+	if (q.Method == "POST" || q.Method == "PUT" || q.Method == "PATCH") && r.Chance(50) {
+		q.Body = vf.Pick(r, []string{`{"a":1}`, "x=1&y=2", "plain"})
+		q.Headers = append(q.Headers, c09Hdr{"Content-Type", vf.Pick(r, []string{"application/json", "text/plain"})})
+	}
+
 	// shuffle
 	for i := len(q.Headers) - 1; i > 0; i-- {
 		j := r.Intn(i + 1)
@@ -291,21 +614,75 @@ func c09GenReq(r *vf.Rand) c09Req {
 	return q
 }
 
-// variant: same request with the forwarded headers changed/removed (2-safety pairs
-// end up in the same stream; the evaluator checks each against the model, and
-// the model theorem links them)
-func c09Raw(q c09Req) string {
+func c09Raw(q c09Req, socket bool) string {
 	var sb strings.Builder
 
-	sb.WriteString(q.Method + " " + q.Target + " HTTP/1.1\r\nHost: " + q.Host + "\r\n")
+	proto := "HTTP/1.1"
+	if q.Proto == "HTTP/1.0" {
+		proto = q.Proto
+	}
+
+	sb.WriteString(q.Method + " " + q.Target + " " + proto + "\r\nHost: " + q.Host + "\r\n")
+
+	hasClose := false
 
 	for _, h := range q.Headers {
 		sb.WriteString(h.Name + ": " + h.Value + "\r\n")
+
+		if strings.EqualFold(h.Name, "Connection") {
+			hasClose = true
+		}
 	}
 
-	sb.WriteString("Connection: close\r\n\r\n")
+	if socket && !hasClose {
+		sb.WriteString("Connection: close\r\n")
+	}
+
+	if q.Body != "" {
+		sb.WriteString(fmt.Sprintf("Content-Length: %d\r\n", len(q.Body)))
+	}
+
+	sb.WriteString("\r\n" + q.Body)
 
 	return sb.String()
+}
+
+// the header lines of the request as sent (what the Coq model starts from), Host excluded
+func c09SentHeaders(q c09Req, socket bool) [][2]string {
+	out := [][2]string{}
+	hasClose := false
+
+	for _, h := range q.Headers {
+		out = append(out, [2]string{h.Name, h.Value})
+
+		if strings.EqualFold(h.Name, "Connection") {
+			hasClose = true
+		}
+	}
+
+	if socket && !hasClose {
+		out = append(out, [2]string{"Connection", "close"})
+	}
+
+	if q.Body != "" {
+		out = append(out, [2]string{"Content-Length", fmt.Sprint(len(q.Body))})
+	}
+
+	return out
+}
+
+// the same request without the seven headers (the 2-safety partner)
+func c09Baseline(c c09Case) c09Case {
+	b := c
+	b.Req.Headers = nil
+
+	for _, h := range c.Req.Headers {
+		if !isFwdName(h.Name) {
+			b.Req.Headers = append(b.Req.Headers, h)
+		}
+	}
+
+	return b
 }
 
 // ---------------------------------------------------------------- observation
@@ -317,14 +694,13 @@ type c09View struct {
 	RawPath string      `json:"rawpath"`
 	Query   string      `json:"query"`
 	IPs     []string    `json:"ips"`
-	Hdrs    [][2]string `json:"hdrs"`   // forwarded names visible through Headers(): name, joined values
-	PathOK  bool        `json:"pathok"` // Path == PathUnescape(RawPath) and Header(n) == Headers()[n] for the seven names
+	Hdrs    [][2]string `json:"hdrs"` // the complete Headers() map: key, joined values (sorted by key)
+	OK      bool        `json:"ok"`   // Path == PathUnescape(RawPath), URL.String() fits the components, Header(n) == Headers()[n] for the probes
 }
 
 type c09Up struct {
 	Method string     `json:"method"`
-	URI    string     `json:"uri"`
-	Hdrs   [][]string `json:"hdrs"` // name, values...
+	Hdrs   [][]string `json:"hdrs"` // the seven names present at the upstream: name, values... (lists canonicalised, see c09CanonList)
 }
 
 type c09Obs struct {
@@ -332,160 +708,503 @@ type c09Obs struct {
 	Rule   string   `json:"rule"`
 	View   *c09View `json:"view,omitempty"`
 	Up     *c09Up   `json:"up,omitempty"`
+	Leaks  []string `json:"leaks"` // sinks in which a distinctive piece of a forwarded header value surfaced
+	Pair   []string `json:"pair"`  // sinks that differ from the same request without the seven headers
 	Err    string   `json:"err,omitempty"`
 }
 
-func c09DecodeView(enc string) (*c09View, error) {
-	raw, err := base64.StdEncoding.DecodeString(enc)
-	if err != nil {
-		return nil, err
-	}
+// everything observable about one served request, as text per sink
+type c09RawObs struct {
+	obs   c09Obs
+	sinks map[string]string
+}
 
+func c09DecodeView(raw []byte) (*c09View, error) {
 	var v struct {
-		Method, Scheme, Host, Path, Rawpath, Query string
-		IPs                                        []string          `json:"ips"`
-		Hdrs                                       map[string]string `json:"hdrs"`
-		H0, H1, H2, H3, H4, H5, H6                 string
+		Method, Scheme, Host, Path, Rawpath, Query, URL string
+		IPs                                             []string          `json:"ips"`
+		Hdrs                                            map[string]string `json:"hdrs"`
+		H0, H1, H2, H3, H4, H5, H6, Hc                  string
 	}
 
-	if err = json.Unmarshal(raw, &v); err != nil {
+	if err := json.Unmarshal(raw, &v); err != nil {
 		return nil, err
 	}
 
-	out := &c09View{Method: v.Method, Scheme: v.Scheme, Host: v.Host, RawPath: v.Rawpath, Query: v.Query, IPs: v.IPs, PathOK: true}
+	out := &c09View{Method: v.Method, Scheme: v.Scheme, Host: v.Host, RawPath: v.Rawpath, Query: v.Query, IPs: v.IPs, OK: true}
 	if out.IPs == nil {
 		out.IPs = []string{}
 	}
 
 	if p, _ := url.PathUnescape(v.Rawpath); p != v.Path {
-		out.PathOK = false
+		out.OK = false
 	}
 
-	single := []string{v.H0, v.H1, v.H2, v.H3, v.H4, v.H5, v.H6}
+	// the URL string the pipeline can print must be made of the same components
+	if want := (&url.URL{Scheme: v.Scheme, Host: v.Host, Path: v.Path, RawPath: v.Rawpath, RawQuery: v.Query}).String(); want != v.URL {
+		out.OK = false
+	}
 
-	for i, n := range fwdNames {
-		val, ok := v.Hdrs[n]
-		if ok {
-			out.Hdrs = append(out.Hdrs, [2]string{n, val})
-		}
+	probes := append(append([]string{}, fwdNames...), "X-Custom")
+	single := []string{v.H0, v.H1, v.H2, v.H3, v.H4, v.H5, v.H6, v.Hc}
 
-		if single[i] != val {
-			out.PathOK = false
+	for i, n := range probes {
+		if single[i] != v.Hdrs[n] {
+			out.OK = false
 		}
 	}
 
-	for k := range v.Hdrs { // a forwarded name under a non-canonical key would be a leak
-		if http.CanonicalHeaderKey(k) != k {
-			out.PathOK = false
-		}
+	for _, k := range assembly.SortedKeys(v.Hdrs) {
+		out.Hdrs = append(out.Hdrs, [2]string{k, v.Hdrs[k]})
 	}
 
 	return out, nil
 }
 
+// "a , b,c" -> "a, b, c": the separators of a comma separated header value do not count
+func c09CanonList(v string) string {
+	parts := strings.Split(v, ",")
+	for i := range parts {
+		parts[i] = strings.TrimSpace(parts[i])
+	}
+
+	return strings.Join(parts, ", ")
+}
+
+// the last element of a Forwarded value written as for=..;host=..;proto=.. without quotes when it
+// consists of exactly these three parameters (any order, any case of the names, quoted or not)
+func c09CanonForwarded(v string) string {
+	parts := strings.Split(v, ",")
+	last := strings.TrimSpace(parts[len(parts)-1])
+	params := map[string]string{}
+
+	for _, p := range strings.Split(last, ";") {
+		k, val, ok := strings.Cut(strings.TrimSpace(p), "=")
+		if !ok {
+			return c09CanonList(v)
+		}
+
+		val = strings.TrimSpace(val)
+		if len(val) >= 2 && val[0] == '"' && val[len(val)-1] == '"' {
+			val = val[1 : len(val)-1]
+		}
+
+		params[strings.ToLower(strings.TrimSpace(k))] = val
+	}
+
+	if len(params) != 3 {
+		return c09CanonList(v)
+	}
+
+	f, ok1 := params["for"]
+	h, ok2 := params["host"]
+	p, ok3 := params["proto"]
+
+	if !ok1 || !ok2 || !ok3 {
+		return c09CanonList(v)
+	}
+
+	parts[len(parts)-1] = "for=" + f + ";host=" + h + ";proto=" + p
+
+	return c09CanonList(strings.Join(parts, ","))
+}
+
 func c09UpOf(rec assembly.Recorded) *c09Up {
-	up := &c09Up{Method: rec.Method, URI: rec.RequestURI}
+	up := &c09Up{Method: rec.Method}
 
 	for _, n := range fwdNames {
-		if vs, ok := rec.Header[n]; ok {
-			up.Hdrs = append(up.Hdrs, append([]string{n}, vs...))
+		vs, ok := rec.Header[n]
+		if !ok {
+			continue
 		}
+
+		row := []string{n}
+
+		for _, v := range vs {
+			switch n {
+			case "Forwarded":
+				v = c09CanonForwarded(v)
+			case "X-Forwarded-For":
+				v = c09CanonList(v)
+			}
+
+			row = append(row, v)
+		}
+
+		up.Hdrs = append(up.Hdrs, row)
 	}
 
 	return up
 }
 
-type c09Env struct {
-	up  *assembly.Upstream
-	dec map[string]*assembly.HandlerApp
-}
+func c09HeaderText(h map[string][]string, skip ...string) string {
+	var sb strings.Builder
 
-func c09ObserveHandler(app *assembly.HandlerApp, up *assembly.Upstream, c c09Case) c09Obs {
-	req, err := assembly.ParseRaw(c09Raw(c.Req), c.Req.Peer, c.Req.TLS)
-	if err != nil {
-		return c09Obs{Status: -1, Err: "parse: " + err.Error()}
+outer:
+	for _, k := range assembly.SortedKeys(h) {
+		for _, s := range skip {
+			if k == s {
+				continue outer
+			}
+		}
+
+		for _, v := range h[k] {
+			sb.WriteString(k + ": " + v + "\n")
+		}
 	}
 
-	up.Take()
+	return sb.String()
+}
 
-	rec := app.Serve(req)
-	o := c09Obs{Status: rec.Code}
+// log lines of the application written while the request was served, volatile fields removed
+type c09Log struct {
+	f   *os.File
+	off int64
+}
+
+func (l *c09Log) take() []map[string]any {
+	if l == nil || l.f == nil {
+		return nil
+	}
+
+	st, err := l.f.Stat()
+	if err != nil || st.Size() <= l.off {
+		return nil
+	}
+
+	buf := make([]byte, st.Size()-l.off)
+	n, _ := l.f.ReadAt(buf, l.off)
+	l.off += int64(n)
+
+	var out []map[string]any
+
+	for _, line := range strings.Split(string(buf[:n]), "\n") {
+		if !strings.HasPrefix(line, "{") {
+			continue
+		}
+
+		m := map[string]any{}
+		if json.Unmarshal([]byte(line), &m) != nil {
+			continue
+		}
+
+		for _, k := range []string{"timestamp", "_tx_start", "_tx_duration_ms", "host", "version"} {
+			delete(m, k)
+		}
+
+		out = append(out, m)
+	}
+
+	return out
+}
+
+func c09LogText(lines []map[string]any, forPair bool) string {
+	var sb strings.Builder
+
+	for _, m := range lines {
+		msg, _ := m["short_message"].(string)
+
+		if forPair {
+			// only lines without run-dependent content take part in the pair comparison
+			if !(msg == "TX started" || msg == "TX finished" || msg == "Forwarding request" || strings.HasPrefix(msg, "Request: ")) {
+				continue
+			}
+		}
+
+		b, _ := json.Marshal(m)
+		sb.Write(b)
+		sb.WriteByte('\n')
+	}
+
+	return sb.String()
+}
+
+func c09Finish(ro *c09RawObs, c c09Case, status int, respHdr http.Header, respBody string, seen []assembly.Recorded, logs []map[string]any) {
+	o := &ro.obs
+	o.Status = status
+	sinks := ro.sinks
+	sinks["status"] = fmt.Sprint(status)
+
+	var (
+		enc string
+		rec *assembly.Recorded
+	)
 
 	if c.Proxy {
-		seen := up.Take()
-		if len(seen) == 1 {
+		switch len(seen) {
+		case 0:
+		case 1:
+			rec = &seen[0]
 			o.Up = c09UpOf(seen[0])
 			o.Rule = seen[0].Get("X-V-Rule")
-
-			if v, err := c09DecodeView(seen[0].Get("X-V")); err == nil {
-				o.View = v
-			} else {
-				o.Err = "view: " + err.Error()
-			}
-		} else if len(seen) > 1 {
+			enc = seen[0].Get("X-V")
+		default:
 			o.Err = fmt.Sprintf("upstream saw %d requests", len(seen))
 		}
-
-		return o
+	} else {
+		o.Rule = respHdr.Get("X-V-Rule")
+		enc = respHdr.Get("X-V")
 	}
 
-	o.Rule = rec.Header().Get("X-V-Rule")
+	sinks["rule"] = o.Rule
 
-	if enc := rec.Header().Get("X-V"); enc != "" {
-		if v, err := c09DecodeView(enc); err == nil {
-			o.View = v
-		} else {
+	viewJSON := ""
+
+	if enc != "" {
+		if raw, err := base64.StdEncoding.DecodeString(enc); err != nil {
 			o.Err = "view: " + err.Error()
+		} else if v, err := c09DecodeView(raw); err != nil {
+			o.Err = "view: " + err.Error()
+		} else {
+			o.View = v
+			viewJSON = string(raw)
 		}
 	}
 
-	return o
+	plain := func(s string) string { // the echoed view is base64 wherever it travels: make it searchable
+		if enc == "" {
+			return s
+		}
+
+		return strings.ReplaceAll(s, enc, viewJSON)
+	}
+
+	sinks["view"] = viewJSON
+	sinks["resp.headers"] = plain(c09HeaderText(respHdr, "Date", "Content-Length"))
+
+	if c.Proxy {
+		// the echo upstream answers with what it received, incl. the address heimdall connected from
+		var m map[string]any
+		if json.Unmarshal([]byte(respBody), &m) == nil {
+			delete(m, "remote_addr")
+			b, _ := json.Marshal(m)
+			respBody = string(b)
+		}
+	}
+
+	sinks["resp.body"] = plain(respBody)
+
+	if rec != nil {
+		sinks["up.line"] = rec.Method + " " + rec.RequestURI + " " + rec.Proto
+		sinks["up.host"] = rec.Host
+		sinks["up.headers"] = plain(c09HeaderText(rec.Header))
+		sinks["up.body"] = rec.Body
+	}
+
+	sinks["log"] = plain(c09LogText(logs, false))
+	sinks["log.pair"] = plain(c09LogText(logs, true))
 }
 
-func c09ObserveSocket(app *assembly.ListeningApp, up *assembly.Upstream, c c09Case) c09Obs {
+func c09ObserveHandler(app *assembly.HandlerApp, up *assembly.Upstream, lg *c09Log, c c09Case) c09RawObs {
+	ro := c09RawObs{sinks: map[string]string{}}
+
+	req, err := assembly.ParseRaw(c09Raw(c.Req, false), c.Req.Peer, c.Req.TLS)
+	if err != nil {
+		ro.obs = c09Obs{Status: -1, Err: "parse: " + err.Error()}
+
+		return ro
+	}
+
+	if c.Req.Proto == "h2" {
+		req.Proto, req.ProtoMajor, req.ProtoMinor = "HTTP/2.0", 2, 0
+	}
+
 	up.Take()
+	lg.take()
+
+	rec := app.Serve(req)
+	body, _ := io.ReadAll(rec.Result().Body)
+
+	c09Finish(&ro, c, rec.Code, rec.Header(), string(body), up.Take(), lg.take())
+
+	return ro
+}
+
+func c09ObserveSocket(app *assembly.ListeningApp, up *assembly.Upstream, lg *c09Log, c c09Case) c09RawObs {
+	ro := c09RawObs{sinks: map[string]string{}}
+
+	up.Take()
+	lg.take()
 
 	local, _, _ := net.SplitHostPort(c.Req.Peer)
 
-	out, err := app.RawRequestFrom(local, c09Raw(c.Req), 5*time.Second)
+	out, err := app.RawRequestFrom(local, c09Raw(c.Req, true), 5*time.Second)
 	if err != nil {
-		return c09Obs{Status: -1, Err: "socket: " + err.Error()}
+		ro.obs = c09Obs{Status: -1, Err: "socket: " + err.Error()}
+
+		return ro
 	}
 
-	resp, err := http.ReadResponse(bufio.NewReader(strings.NewReader(out)), nil)
+	resp, err := http.ReadResponse(bufio.NewReader(strings.NewReader(out)), &http.Request{Method: c.Req.Method})
 	if err != nil {
-		return c09Obs{Status: -1, Err: "response: " + err.Error()}
+		ro.obs = c09Obs{Status: -1, Err: "response: " + err.Error()}
+
+		return ro
 	}
 	defer resp.Body.Close()
 
-	o := c09Obs{Status: resp.StatusCode}
+	body, _ := io.ReadAll(resp.Body)
 
-	if c.Proxy {
-		seen := up.Take()
-		if len(seen) == 1 {
-			o.Up = c09UpOf(seen[0])
-			o.Rule = seen[0].Get("X-V-Rule")
+	time.Sleep(2 * time.Millisecond) // "TX finished" is written after the response
 
-			if v, err := c09DecodeView(seen[0].Get("X-V")); err == nil {
-				o.View = v
+	c09Finish(&ro, c, resp.StatusCode, resp.Header, string(body), up.Take(), lg.take())
+
+	return ro
+}
+
+// distinctive pieces of the forwarded header values of a request
+func c09Pieces(q c09Req) []string {
+	seen := map[string]bool{}
+	out := []string{}
+
+	add := func(s string) {
+		s = strings.ToLower(strings.TrimSpace(s))
+		if len(s) >= 5 && !seen[s] {
+			seen[s] = true
+			out = append(out, s)
+		}
+	}
+
+	for _, h := range q.Headers {
+		if !isFwdName(h.Name) {
+			continue
+		}
+
+		add(h.Value)
+
+		for _, p := range strings.FieldsFunc(h.Value, func(r rune) bool { return strings.ContainsRune(",;?&= \t\"", r) }) {
+			add(p)
+		}
+	}
+
+	return out
+}
+
+var c09PairSinks = []string{"status", "rule", "view", "resp.headers", "resp.body", "up.line", "up.host", "up.headers", "up.body", "log.pair"}
+var c09LeakSinks = []string{"view", "resp.headers", "resp.body", "up.line", "up.host", "up.headers", "up.body", "log"}
+
+// pair: sinks that differ between the request and its partner without the seven headers;
+// leaks: sinks of the request that contain a distinctive piece of a forwarded value which the partner's does not
+func c09Compare(full, base c09RawObs, q c09Req) (pair, leaks []string) {
+	pair, leaks = []string{}, []string{}
+
+	for _, s := range c09PairSinks {
+		if full.sinks[s] != base.sinks[s] {
+			pair = append(pair, s)
+		}
+	}
+
+	pieces := c09Pieces(q)
+
+	for _, s := range c09LeakSinks {
+		f, b := strings.ToLower(full.sinks[s]), strings.ToLower(base.sinks[s])
+
+		for _, p := range pieces {
+			if strings.Contains(f, p) && !strings.Contains(b, p) {
+				leaks = append(leaks, s)
+
+				break
 			}
 		}
-
-		return o
 	}
 
-	o.Rule = resp.Header.Get("X-V-Rule")
-
-	if enc := resp.Header.Get("X-V"); enc != "" {
-		if v, err := c09DecodeView(enc); err == nil {
-			o.View = v
-		}
-	}
-
-	return o
+	return pair, leaks
 }
 
 // ---------------------------------------------------------------- Gallina rendering (with the parsing oracles)
+
+// frequent strings are written as the constants q<i> of Run/Eval_C09.v (the Coq parser is slow on string
+// literals); lib/props_C09.py checks on every run that both lists agree
+var c09AliasIdx = func() map[string]int {
+	m := map[string]int{}
+	for i, s := range c09Aliases() {
+		if _, dup := m[s]; !dup {
+			m[s] = i
+		}
+	}
+
+	return m
+}()
+
+func c09Aliases() []string {
+	out := []string{}
+	add := func(xs ...string) { out = append(out, xs...) }
+
+	for _, n := range fwdNames {
+		add(n, strings.ToLower(n), strings.ToUpper(n))
+	}
+
+	for _, n := range assembly.SortedKeys(c09Alike) {
+		add(n, strings.ToLower(n), strings.ToUpper(n))
+		add(c09Alike[n]...)
+	}
+
+	add("Host", "X-Custom", "x-custom", "X-CUSTOM", "c1", "Cookie", "a=b", "Connection", "close", "Upgrade", "websocket",
+		"Content-Type", "Content-Length", "application/json", "text/plain", "http", "https")
+	add(c09Methods...)
+	add(c09Hosts...)
+	add(c09Paths...)
+	add(c09Queries...)
+
+	for _, n := range fwdNames {
+		add(c09Values[n]...)
+	}
+
+	for _, r := range c09Rules {
+		add(r.ID)
+	}
+
+	add(c09PairSinks...)
+	add(c09LeakSinks...)
+
+	// no duplicates, no empty string, nothing that needs byte escapes
+	seen := map[string]bool{"": true}
+	uniq := []string{}
+
+	for _, s := range out {
+		ok := !seen[s]
+		for i := 0; i < len(s); i++ {
+			if s[i] < 32 || s[i] > 126 || s[i] == '"' {
+				ok = false
+			}
+		}
+
+		if ok {
+			seen[s] = true
+			uniq = append(uniq, s)
+		}
+	}
+
+	return uniq
+}
+
+func c09Str(s string) string {
+	if i, ok := c09AliasIdx[s]; ok {
+		return fmt.Sprintf("q%d", i)
+	}
+
+	return vf.CoqStr(s)
+}
+
+func c09Strs(xs []string) string { return vf.CoqListOf(xs, c09Str) }
+
+// TestVerifC09Aliases prints the alias list (one JSON string per line) for lib/props_C09.py
+func TestVerifC09Aliases(t *testing.T) {
+	if os.Getenv("VERIF_C09_ALIASES") == "" {
+		t.Skip()
+	}
+
+	f, err := os.Create(os.Getenv("VERIF_C09_ALIASES"))
+	if err != nil {
+		t.Fatal(err)
+	}
+	defer f.Close()
+
+	for _, s := range c09Aliases() {
+		b, _ := json.Marshal(s)
+		f.Write(append(b, '\n'))
+	}
+}
 
 func coqBytes(b []byte) string {
 	items := make([]string, len(b))
@@ -496,28 +1215,26 @@ func coqBytes(b []byte) string {
 	return "[" + strings.Join(items, ";") + "]%N"
 }
 
-// the entry as trustedproxy.New sees it: "/" -> ParseCIDR, else ParseIP
-func c09CoqEntry(e string) string {
-	if strings.Contains(e, "/") {
-		_, n, err := net.ParseCIDR(e)
-		if err != nil {
-			return "ECidrErr"
-		}
-
-		return "(ECidr " + coqBytes(n.IP) + " " + coqBytes(n.Mask) + ")"
+// the answers of net.ParseIP and net.ParseCIDR on one string
+func c09CoqNetRow(s string) string {
+	cidr := "None"
+	if _, n, err := net.ParseCIDR(s); err == nil {
+		cidr = "(Some " + vf.CoqPair(coqBytes(n.IP), coqBytes(n.Mask)) + ")"
 	}
 
-	return "(EIp " + coqBytes(net.ParseIP(e)) + ")"
+	return vf.CoqPair(c09Str(s), vf.CoqPair(coqBytes(net.ParseIP(s)), cidr))
 }
 
 type c09Oracle struct {
+	split    *string // net.SplitHostPort(RemoteAddr): the host; nil on error
 	peerHost string
 	peerIP   net.IP
 	escPath  string
 	rawQuery string
 	method   string
 	host     string
-	hdrs     [][2]string // canonical key, value in arrival order per key
+	sent     [][2]string // header lines as sent
+	parsed   [][2]string // net/http's parse: canonical key, value (sorted by key, arrival order per key)
 	uri      *[2]string
 	parseErr string
 }
@@ -525,34 +1242,29 @@ type c09Oracle struct {
 func c09OracleOf(c c09Case) c09Oracle {
 	o := c09Oracle{}
 
-	req, err := assembly.ParseRaw(c09Raw(c.Req), c.Req.Peer, c.Req.TLS)
+	req, err := assembly.ParseRaw(c09Raw(c.Req, c.Req.Socket), c.Req.Peer, c.Req.TLS)
 	if err != nil {
 		o.parseErr = err.Error()
 
 		return o
 	}
 
-	o.peerHost = httpx.IPFromHostPort(c.Req.Peer)
+	// the peer host by the driver's own reading of RemoteAddr (NOT httpx.IPFromHostPort, which is code under test)
+	if h, _, err := net.SplitHostPort(c.Req.Peer); err == nil {
+		o.split = &h
+		o.peerHost = h
+	}
+
 	o.peerIP = net.ParseIP(o.peerHost)
 	o.escPath = req.URL.EscapedPath()
 	o.rawQuery = req.URL.RawQuery
 	o.method = req.Method
 	o.host = req.Host
+	o.sent = c09SentHeaders(c.Req, c.Req.Socket)
 
-	keys := make([]string, 0, len(req.Header))
-	for k := range req.Header {
-		keys = append(keys, k)
-	}
-
-	sort.Strings(keys)
-
-	for _, k := range keys {
-		if k == "Connection" {
-			continue
-		}
-
+	for _, k := range assembly.SortedKeys(req.Header) {
 		for _, v := range req.Header[k] {
-			o.hdrs = append(o.hdrs, [2]string{k, v})
+			o.parsed = append(o.parsed, [2]string{k, v})
 		}
 	}
 
@@ -566,42 +1278,72 @@ func c09OracleOf(c c09Case) c09Oracle {
 }
 
 func c09CoqPairs(ps [][2]string) string {
-	return vf.CoqListOf(ps, func(p [2]string) string { return vf.CoqPair(vf.CoqStr(p[0]), vf.CoqStr(p[1])) })
+	return vf.CoqListOf(ps, func(p [2]string) string { return vf.CoqPair(c09Str(p[0]), c09Str(p[1])) })
 }
 
 func c09CoqObs(o c09Obs) string {
 	view := "None"
 	if o.View != nil {
 		v := o.View
-		view = "(Some " + vf.CoqApp("vw", vf.CoqStr(v.Method), vf.CoqStr(v.Scheme), vf.CoqStr(v.Host), vf.CoqStr(v.RawPath),
-			vf.CoqStr(v.Query), vf.CoqStrs(v.IPs), c09CoqPairs(v.Hdrs), vf.CoqBool(v.PathOK)) + ")"
+		view = "(Some " + vf.CoqApp("vw", c09Str(v.Method), c09Str(v.Scheme), c09Str(v.Host), c09Str(v.RawPath),
+			c09Str(v.Query), c09Strs(v.IPs), c09CoqPairs(v.Hdrs), vf.CoqBool(v.OK)) + ")"
 	}
 
 	up := "None"
 	if o.Up != nil {
-		hs := vf.CoqListOf(o.Up.Hdrs, func(h []string) string { return vf.CoqPair(vf.CoqStr(h[0]), vf.CoqStrs(h[1:])) })
-		up = "(Some " + vf.CoqApp("upv", vf.CoqStr(o.Up.Method), vf.CoqStr(o.Up.URI), hs) + ")"
+		hs := vf.CoqListOf(o.Up.Hdrs, func(h []string) string { return vf.CoqPair(c09Str(h[0]), c09Strs(h[1:])) })
+		up = "(Some " + vf.CoqApp("upv", c09Str(o.Up.Method), hs) + ")"
 	}
 
-	return vf.CoqApp("ob", vf.CoqZ(int64(o.Status)), vf.CoqStr(o.Rule), view, up)
+	return vf.CoqApp("ob", vf.CoqZ(int64(o.Status)), c09Str(o.Rule), view, up, c09Strs(o.Leaks), c09Strs(o.Pair))
 }
 
-func c09Coq(c c09Case, trusted []string, or c09Oracle, o c09Obs) string {
-	uri := "None"
-	if or.uri != nil {
-		uri = "(Some " + vf.CoqPair(vf.CoqStr(or.uri[0]), vf.CoqStr(or.uri[1])) + ")"
+func c09CoqOptList(l *[]string) string {
+	if l == nil {
+		return "None"
 	}
 
-	conn := vf.CoqApp("cn", vf.CoqStr(or.peerHost), vf.CoqBool(c.Req.TLS), vf.CoqStr(or.method), vf.CoqStr(or.host),
-		vf.CoqStr(or.escPath), vf.CoqStr(or.rawQuery))
+	return "(Some " + c09Strs(*l) + ")"
+}
 
-	return vf.CoqApp("cs", vf.CoqBool(c.Proxy), vf.CoqListOf(trusted, c09CoqEntry), coqBytes(or.peerIP), conn,
-		c09CoqPairs(or.hdrs), uri, c09CoqObs(o))
+func c09Coq(c c09Case, loadedOK bool, or c09Oracle, o c09Obs) string {
+	uri := "None"
+	if or.uri != nil {
+		uri = "(Some " + vf.CoqPair(c09Str(or.uri[0]), c09Str(or.uri[1])) + ")"
+	}
+
+	split := "None"
+	if or.split != nil {
+		split = "(Some " + c09Str(*or.split) + ")"
+	}
+
+	mode := "Decision"
+	if c.Proxy {
+		mode = "Proxy"
+	}
+
+	// the net package's answers for every string the model may ask about
+	asked := append([]string{or.peerHost, ""}, c.own()...)
+	seen := map[string]bool{}
+	rows := []string{}
+
+	for _, s := range asked {
+		if !seen[s] {
+			seen[s] = true
+			rows = append(rows, c09CoqNetRow(s))
+		}
+	}
+
+	req := vf.CoqApp("rq", c09Str(c.Req.Peer), vf.CoqBool(c.Req.TLS), c09Str(or.method), c09Str(or.host),
+		c09Str(or.escPath), c09Str(or.rawQuery))
+
+	return vf.CoqApp("cs", mode, vf.CoqApp("cf", c09CoqOptList(c.DecisionTP), c09CoqOptList(c.ProxyTP)), vf.CoqBool(loadedOK),
+		vf.CoqList(rows), split, req, c09CoqPairs(or.sent), c09CoqPairs(or.parsed), uri, c09CoqObs(o))
 }
 
 // ---------------------------------------------------------------- classification (input histogram, non-triviality)
 
-func c09Tags(c c09Case, trusted []string, or c09Oracle, o c09Obs) ([]string, bool) {
+func c09Tags(c c09Case, or c09Oracle, o c09Obs) ([]string, bool) {
 	tags := []string{}
 	add := func(s string) { tags = append(tags, s) }
 
@@ -617,41 +1359,73 @@ func c09Tags(c c09Case, trusted []string, or c09Oracle, o c09Obs) ([]string, boo
 		add("transport:inprocess")
 	}
 
-	// trust, computed by the real net package independently of heimdall (oracle for the histogram only)
-	isTrusted := false
+	add("log:" + c.LogLevel)
+
+	// trust, computed with the real net package independently of heimdall (for the histogram only)
+	covers := func(list []string) bool {
+		for _, e := range list {
+			if strings.Contains(e, "/") {
+				if _, n, err := net.ParseCIDR(e); err == nil && or.peerIP != nil && n.Contains(or.peerIP) {
+					return true
+				}
+			} else if ip := net.ParseIP(e); ip != nil && or.peerIP != nil && ip.Equal(or.peerIP) {
+				return true
+			}
+		}
+
+		return false
+	}
+
+	trusted := c.own()
+	isTrusted := covers(trusted)
 	hasBadEntry := false
+	kinds := map[string]bool{}
 
 	for _, e := range trusted {
-		if strings.Contains(e, "/") {
-			if _, n, err := net.ParseCIDR(e); err == nil {
-				add("entry:cidr")
-
-				if or.peerIP != nil && n.Contains(or.peerIP) {
-					isTrusted = true
-				}
+		switch {
+		case strings.Contains(e, "/"):
+			if _, _, err := net.ParseCIDR(e); err == nil {
+				kinds["entry:cidr"] = true
 			} else {
-				add("entry:bad-cidr")
+				kinds["entry:bad-cidr"] = true
 			}
-		} else if ip := net.ParseIP(e); ip != nil {
-			add("entry:ip")
-
-			if or.peerIP != nil && ip.Equal(or.peerIP) {
-				isTrusted = true
-			}
-		} else {
-			add("entry:bad-ip")
-
+		case net.ParseIP(e) != nil:
+			kinds["entry:ip"] = true
+		default:
+			kinds["entry:bad-ip"] = true
 			hasBadEntry = true
 		}
 	}
 
-	if len(trusted) == 0 {
-		add("entry:none")
+	for k := range kinds {
+		add(k)
+	}
+
+	switch n := len(trusted); {
+	case n == 0 && ((c.Proxy && c.ProxyTP == nil) || (!c.Proxy && c.DecisionTP == nil)):
+		add("list:absent")
+	case n == 0:
+		add("list:empty")
+	case n <= 4:
+		add("list:1-4")
+	default:
+		add("list:5-30")
+	}
+
+	other := c.ProxyTP
+	if c.Proxy {
+		other = c.DecisionTP
+	}
+
+	if other != nil && covers(*other) && !isTrusted {
+		add("site:listed-by-the-other-service-only")
 	}
 
 	switch {
+	case or.split == nil:
+		add("peer:no-host-port")
 	case or.peerIP == nil:
-		add("peer:unparsable")
+		add("peer:unparsable-host")
 	case or.peerIP.To4() != nil && strings.Contains(or.peerHost, ":"):
 		add("peer:v4-mapped")
 	case or.peerIP.To4() != nil:
@@ -664,32 +1438,40 @@ func c09Tags(c c09Case, trusted []string, or c09Oracle, o c09Obs) ([]string, boo
 		add("site:F1-bad-entry-and-bad-peer")
 	}
 
-	nf := 0
-	repeated := false
-	oddCase := false
+	nf, alike := 0, 0
+	repeated, oddCase := false, false
 	count := map[string]int{}
 
 	for _, h := range c.Req.Headers {
 		cn := http.CanonicalHeaderKey(h.Name)
-		for _, n := range fwdNames {
-			if cn == n {
-				nf++
-				count[n]++
 
-				if count[n] > 1 {
-					repeated = true
-				}
-
-				if h.Name != n {
-					oddCase = true
-				}
-
-				add("hdr:" + n)
-			}
+		if _, ok := c09Alike[cn]; ok {
+			alike++
 		}
+
+		if !isFwdName(cn) {
+			continue
+		}
+
+		nf++
+		count[cn]++
+
+		if count[cn] > 1 {
+			repeated = true
+		}
+
+		if h.Name != cn {
+			oddCase = true
+		}
+
+		add("hdr:" + cn)
 	}
 
 	add(fmt.Sprintf("fwd-headers:%d", min(nf, 5)))
+
+	if alike > 0 {
+		add("hdr:look-alike")
+	}
 
 	if repeated {
 		add("hdr:repeated")
@@ -709,13 +1491,45 @@ func c09Tags(c c09Case, trusted []string, or c09Oracle, o c09Obs) ([]string, boo
 		add("conn:tls")
 	}
 
+	add("method:" + c.Req.Method)
+
+	switch {
+	case c.Req.Proto != "":
+		add("proto:" + c.Req.Proto)
+	case strings.HasPrefix(c.Req.Target, "http://"):
+		add("target:absolute-form")
+	}
+
+	if c.Req.Body != "" {
+		add("req:body")
+	}
+
+	for _, h := range c.Req.Headers {
+		if h.Name == "Upgrade" {
+			add("req:upgrade")
+		}
+	}
+
 	add(fmt.Sprintf("status:%d", o.Status))
 
 	if o.Rule != "" {
 		add("rule:" + o.Rule)
 	}
 
-	// code sites of DESIGN 6.20a
+	if o.View == nil {
+		add("view:none")
+	}
+
+	if len(o.Pair) > 0 {
+		add("pair:differs")
+	} else {
+		add("pair:equal")
+	}
+
+	if len(o.Leaks) > 0 {
+		add("taint:surfaced")
+	}
+
 	if nf > 0 && !isTrusted {
 		add("site:strip")
 	}
@@ -743,44 +1557,93 @@ func c09Corpus() []c09Case {
 
 		return out
 	}
+	l := func(s ...string) *[]string { return &s }
 	spoof := h("X-Forwarded-Method", "POST", "X-Forwarded-Uri", "/pst/a?x=1", "X-Forwarded-Host", "evil.example.com",
 		"X-Forwarded-Proto", "https", "X-Forwarded-For", "1.1.1.1", "Forwarded", "for=6.6.6.6", "X-Forwarded-Path", "/x")
 
 	var out []c09Case
 
 	for _, proxy := range []bool{false, true} {
+		mk := func(own, other *[]string, level string, q c09Req) c09Case {
+			c := c09Case{Proxy: proxy, LogLevel: level, Req: q}
+			if proxy {
+				c.ProxyTP, c.DecisionTP = own, other
+			} else {
+				c.DecisionTP, c.ProxyTP = own, other
+			}
+
+			return c
+		}
+
 		out = append(out,
-			// C09-F1 witness: unparsable entry + unparsable (zoned IPv6) peer => trusted
-			c09Case{Proxy: proxy, Trusted: []string{"not-an-ip"}, SetTrusted: true,
-				Req: c09Req{Peer: "[fe80::1%eth0]:1234", Method: "GET", Target: "/pub/a", Host: "a.example.com", Headers: spoof}},
+			// former C09-F1 witness: unparsable entry + unparsable (zoned IPv6) peer
+			mk(l("not-an-ip"), nil, "info",
+				c09Req{Peer: "[fe80::1%eth0]:1234", Method: "GET", Target: "/pub/a", Host: "a.example.com", Headers: spoof}),
 			// same with a unix-socket style peer
-			c09Case{Proxy: proxy, Trusted: []string{"10.0.0.1", "fe80::1%eth0"}, SetTrusted: true,
-				Req: c09Req{Peer: "@", Method: "GET", Target: "/pub/a", Host: "a.example.com", Headers: spoof}},
+			mk(l("10.0.0.1", "fe80::1%eth0"), nil, "info",
+				c09Req{Peer: "@", Method: "GET", Target: "/pub/a", Host: "a.example.com", Headers: spoof}),
 			// unparsable peer, only valid entries: untrusted
-			c09Case{Proxy: proxy, Trusted: []string{"10.0.0.1", "::/0", "0.0.0.0/0"}, SetTrusted: true,
-				Req: c09Req{Peer: "[fe80::1%eth0]:1234", Method: "GET", Target: "/pub/a", Host: "a.example.com", Headers: spoof}},
+			mk(l("10.0.0.1", "::/0", "0.0.0.0/0"), nil, "trace",
+				c09Req{Peer: "[fe80::1%eth0]:1234", Method: "GET", Target: "/pub/a", Host: "a.example.com", Headers: spoof}),
 			// untrusted peer, everything spoofed, odd casing
-			c09Case{Proxy: proxy, Trusted: []string{"10.0.0.0/8"}, SetTrusted: true,
-				Req: c09Req{Peer: "8.8.4.4:53", Method: "GET", Target: "/pub/a?x=1", Host: "a.example.com",
+			mk(l("10.0.0.0/8"), nil, "trace",
+				c09Req{Peer: "8.8.4.4:53", Method: "GET", Target: "/pub/a?x=1", Host: "a.example.com",
 					Headers: h("x-forwarded-method", "POST", "X-FORWARDED-URI", "/pst/a", "x-Forwarded-hOST", "evil.example.com",
-						"X-forwarded-proto", "https", "x-forwarded-for", "1.1.1.1", "FORWARDED", "for=6.6.6.6", "x-forwarded-path", "/x")}},
+						"X-forwarded-proto", "https", "x-forwarded-for", "1.1.1.1", "FORWARDED", "for=6.6.6.6", "x-forwarded-path", "/x")}),
 			// trusted peer, everything set
-			c09Case{Proxy: proxy, Trusted: []string{"10.0.0.0/8"}, SetTrusted: true,
-				Req: c09Req{Peer: "10.1.2.3:80", Method: "GET", Target: "/pub/a?x=1", Host: "a.example.com", Headers: spoof}},
+			mk(l("10.0.0.0/8"), nil, "info",
+				c09Req{Peer: "10.1.2.3:80", Method: "GET", Target: "/pub/a?x=1", Host: "a.example.com", Headers: spoof}),
 			// trusted IPv4-mapped peer against an IPv4 entry; only X-Forwarded-For
-			c09Case{Proxy: proxy, Trusted: []string{"10.0.0.1"}, SetTrusted: true,
-				Req: c09Req{Peer: "[::ffff:10.0.0.1]:99", Method: "POST", Target: "/pst/a", Host: "b.example.com:8080",
-					Headers: h("X-Forwarded-For", "1.1.1.1, 2.2.2.2")}},
+			mk(l("10.0.0.1"), nil, "info",
+				c09Req{Peer: "[::ffff:10.0.0.1]:99", Method: "POST", Target: "/pst/a", Host: "b.example.com:8080",
+					Headers: h("X-Forwarded-For", "1.1.1.1, 2.2.2.2")}),
 			// no trusted proxies at all
-			c09Case{Proxy: proxy, Req: c09Req{Peer: "127.0.0.1:40000", Method: "GET", Target: "/sec/a", Host: "a.example.com",
-				Headers: h("X-Forwarded-Proto", "https")}},
+			mk(nil, nil, "info", c09Req{Peer: "127.0.0.1:40000", Method: "GET", Target: "/sec/a", Host: "a.example.com",
+				Headers: h("X-Forwarded-Proto", "https")}),
 			// trusted, path-only X-Forwarded-Uri keeps the actual query; unparsable one falls back
-			c09Case{Proxy: proxy, Trusted: []string{"0.0.0.0/0"}, SetTrusted: true,
-				Req: c09Req{Peer: "10.0.0.1:1234", Method: "GET", Target: "/other?x=1", Host: "a.example.com",
-					Headers: h("X-Forwarded-Uri", "/any/a")}},
-			c09Case{Proxy: proxy, Trusted: []string{"0.0.0.0/0"}, SetTrusted: true,
-				Req: c09Req{Peer: "10.0.0.1:1234", Method: "GET", Target: "/any/a", Host: "a.example.com",
-					Headers: h("X-Forwarded-Uri", "%zz", "X-Forwarded-Uri", "/pub/a")}},
+			mk(l("0.0.0.0/0"), nil, "info",
+				c09Req{Peer: "10.0.0.1:1234", Method: "GET", Target: "/other?x=1", Host: "a.example.com",
+					Headers: h("X-Forwarded-Uri", "/any/a")}),
+			mk(l("0.0.0.0/0"), nil, "info",
+				c09Req{Peer: "10.0.0.1:1234", Method: "GET", Target: "/any/a", Host: "a.example.com",
+					Headers: h("X-Forwarded-Uri", "%zz", "X-Forwarded-Uri", "/pub/a")}),
+			// --- after the audit ---
+			// RemoteAddr without host:port is nobody, whatever is listed (a loopback default would be trusted here)
+			mk(l("0.0.0.0/0", "127.0.0.1", "::/0"), nil, "trace",
+				c09Req{Peer: "garbage", Method: "GET", Target: "/pub/a", Host: "a.example.com", Headers: spoof}),
+			mk(l("127.0.0.0/8", "::1"), nil, "info",
+				c09Req{Peer: "", Method: "GET", Target: "/pub/a", Host: "a.example.com", Headers: spoof}),
+			// the peer is listed by the OTHER service only
+			mk(l("192.168.1.0/24"), l("8.8.4.4", "10.0.0.0/8"), "info",
+				c09Req{Peer: "8.8.4.4:53", Method: "GET", Target: "/pub/a", Host: "a.example.com", Headers: spoof}),
+			// request shapes a short cut might exempt from the strip
+			mk(l("10.0.0.0/8"), nil, "trace",
+				c09Req{Peer: "8.8.4.4:53", Method: "OPTIONS", Target: "/pub/a", Host: "a.example.com", Headers: spoof}),
+			mk(l("10.0.0.0/8"), nil, "info",
+				c09Req{Peer: "8.8.4.4:53", Method: "HEAD", Target: "/pub/a", Host: "a.example.com", Proto: "HTTP/1.0", Headers: spoof}),
+			mk(l("10.0.0.0/8"), nil, "info",
+				c09Req{Peer: "8.8.4.4:53", Method: "GET", Target: "/pub/a", Host: "a.example.com", Proto: "h2",
+					Headers: append(h("Upgrade", "websocket", "Connection", "Upgrade"), spoof...)}),
+			mk(l("10.0.0.0/8"), nil, "info",
+				c09Req{Peer: "8.8.4.4:53", Method: "POST", Target: "/pub/a", Host: "a.example.com", Body: `{"a":1}`,
+					Headers: append(h("Content-Type", "application/json"), spoof...)}),
+			// look-alike names must not be honoured, neither for an untrusted nor for a trusted peer
+			mk(l("10.0.0.0/8"), nil, "info",
+				c09Req{Peer: "8.8.4.4:53", Method: "GET", Target: "/pub/a", Host: "a.example.com",
+					Headers: h("X-Http-Method-Override", "POST", "X-Original-Url", "/pst/a", "X-Real-Ip", "7.7.7.7",
+						"X-Forwarded-Scheme", "https", "X-Forwarded-Prefix", "/sec", "X-Forwarded-Port", "443")}),
+			mk(l("10.0.0.0/8"), nil, "info",
+				c09Req{Peer: "10.1.2.3:80", Method: "GET", Target: "/pub/a", Host: "a.example.com",
+					Headers: h("X-Http-Method-Override", "POST", "X-Original-Url", "/pst/a", "X-Real-Ip", "7.7.7.7",
+						"X-Forwarded-Scheme", "https", "X-Forwarded-Prefix", "/sec", "X-Forwarded-Host", "evil.example.com")}),
+			// a long list with neighbouring ranges: the peer sits in the gap
+			mk(l("10.0.0.0/25", "10.0.1.0/25", "10.0.0.192/26", "10.0.2.0/24", "10.0.1.128/26", "10.0.0.0/25", "192.168.0.0/16", "not-an-ip"), nil, "info",
+				c09Req{Peer: "10.0.0.130:1", Method: "GET", Target: "/pub/a", Host: "a.example.com", Headers: spoof}),
+			mk(l("10.0.0.0/25", "10.0.1.0/25", "10.0.0.192/26", "10.0.2.0/24", "10.0.1.128/26", "10.0.0.0/25", "192.168.0.0/16", "not-an-ip"), nil, "info",
+				c09Req{Peer: "10.0.1.150:1", Method: "GET", Target: "/pub/a", Host: "a.example.com", Headers: spoof}),
+			// a single IPv6 address is not a range
+			mk(l("2001:db8::1"), nil, "info",
+				c09Req{Peer: "[2001:db8::2]:80", Method: "GET", Target: "/pub/a", Host: "a.example.com", Headers: spoof}),
 		)
 	}
 
@@ -789,17 +1652,94 @@ func c09Corpus() []c09Case {
 
 // ---------------------------------------------------------------- the test
 
+const c09SocketCases = 40
+
+type c09Runner struct {
+	t     *testing.T
+	w     *vf.Writer
+	up    *assembly.Upstream
+	lg    *c09Log
+	rules string
+	idx   int
+}
+
+func c09SameList(a *[]string, b *[]string) bool {
+	// an option that is not set and an empty list mean the same: nobody is trusted
+	if a == nil || len(*a) == 0 {
+		return b == nil || len(*b) == 0
+	}
+
+	return b != nil && reflect.DeepEqual(*a, *b)
+}
+
+// the constants q<i> of Run/Eval_C09.v must be the strings of c09Aliases, in order
+func c09CheckAliases(t *testing.T) {
+	dir := os.Getenv("VERIF_DIR")
+	if dir == "" {
+		return
+	}
+
+	src, err := os.ReadFile(dir + "/coq/Run/Eval_C09.v")
+	if err != nil {
+		t.Fatalf("aliases: %v", err)
+	}
+
+	want := c09Aliases()
+	n := 0
+
+	for _, line := range strings.Split(string(src), "\n") {
+		var (
+			i int
+			v string
+		)
+
+		if !strings.HasPrefix(line, "Definition q") {
+			continue
+		}
+
+		if _, err := fmt.Sscanf(line, "Definition q%d : string := %q.", &i, &v); err != nil {
+			t.Fatalf("aliases: cannot read %q: %v", line, err)
+		}
+
+		if i != n || i >= len(want) || want[i] != v {
+			t.Fatalf("aliases: Run/Eval_C09.v q%d = %q, driver expects %q (regenerate the block, see docs/notes/C09.md)", i, v, want[min(i, len(want)-1)])
+		}
+
+		n++
+	}
+
+	if n != len(want) {
+		t.Fatalf("aliases: Run/Eval_C09.v defines %d constants, driver has %d", n, len(want))
+	}
+}
+
 func TestVerifC09(t *testing.T) {
+	c09CheckAliases(t)
+
 	w := vf.NewWriter()
 	defer w.Close()
+
+	// the applications log to os.Stdout (zerolog.New(os.Stdout) at start-up): give them a file the driver can read back
+	lg := &c09Log{}
+
+	if f, err := os.CreateTemp("", "hv-c09-log-"); err == nil {
+		lg.f = f
+		saved := os.Stdout
+		os.Stdout = f
+
+		defer func() {
+			os.Stdout = saved
+			f.Close()
+			os.Remove(f.Name())
+		}()
+	}
 
 	up := assembly.NewUpstream()
 	defer up.Close()
 
-	rules := c09RulesYAML(up.Host)
+	rn := &c09Runner{t: t, w: w, up: up, lg: lg, rules: c09RulesYAML(up.Host)}
 	root := vf.NewRand(vf.Seed())
 	n := vf.N(600)
-	idx := 0
 
 	type appKey struct {
 		proxy bool
@@ -807,6 +1747,7 @@ func TestVerifC09(t *testing.T) {
 	}
 
 	apps := map[appKey]*assembly.HandlerApp{}
+	order := []appKey{}
 
 	defer func() {
 		for _, a := range apps {
@@ -815,49 +1756,35 @@ func TestVerifC09(t *testing.T) {
 	}()
 
 	handlerFor := func(c c09Case) *assembly.HandlerApp {
-		cfg := c09Config(c.Proxy, c.Trusted, c.SetTrusted)
+		cfg := c09Config(c)
 		k := appKey{c.Proxy, cfg}
 
 		if a, ok := apps[k]; ok {
 			return a
 		}
 
-		a, err := assembly.StartHandler(map[bool]assembly.Mode{false: assembly.Decision, true: assembly.Proxy}[c.Proxy], cfg, rules)
+		a, err := assembly.StartHandler(map[bool]assembly.Mode{false: assembly.Decision, true: assembly.Proxy}[c.Proxy], cfg, rn.rules)
 		if err != nil {
-			t.Fatalf("case %d: cannot start app: %v\n%s", idx, err, cfg)
+			t.Fatalf("case %d: cannot start app: %v\n%s", rn.idx, err, cfg)
 		}
 
-		if len(apps) > 40 { // keep the number of live apps bounded
-			for kk, old := range apps {
-				old.Stop()
-				delete(apps, kk)
-
-				break
-			}
+		if len(order) > 30 { // keep the number of live apps bounded (oldest first)
+			old := order[0]
+			order = order[1:]
+			apps[old].Stop()
+			delete(apps, old)
 		}
 
 		apps[k] = a
+		order = append(order, k)
 
 		return a
 	}
 
-	loaded := func(a *assembly.HandlerApp, proxy bool) []string {
-		sc := a.Conf.Serve.Decision
-		if proxy {
-			sc = a.Conf.Serve.Proxy
-		}
-
-		if sc.TrustedProxies == nil {
-			return nil
-		}
-
-		return *sc.TrustedProxies
-	}
-
 	emit := func(stream string, c c09Case) {
-		defer func() { idx++ }()
+		defer func() { rn.idx++ }()
 
-		if !vf.Want(idx) {
+		if !vf.Want(rn.idx) {
 			return
 		}
 
@@ -868,31 +1795,46 @@ func TestVerifC09(t *testing.T) {
 		}
 
 		app := handlerFor(c)
-		trusted := loaded(app, c.Proxy)
-		o := c09ObserveHandler(app, up, c)
-		tags, nt := c09Tags(c, trusted, or, o)
+		loadedOK := c09SameList(app.Conf.Serve.Decision.TrustedProxies, c.DecisionTP) &&
+			c09SameList(app.Conf.Serve.Proxy.TrustedProxies, c.ProxyTP)
 
-		w.Put(vf.Obs{I: idx, Stream: stream, In: c, Out: o, Coq: c09Coq(c, trusted, or, o), Nontrivial: nt, Tags: tags})
+		full := c09ObserveHandler(app, up, lg, c)
+		base := c09ObserveHandler(app, up, lg, c09Baseline(c))
+		full.obs.Pair, full.obs.Leaks = c09Compare(full, base, c.Req)
+
+		rn.put(stream, c, loadedOK, or, full)
 	}
 
 	for _, c := range c09Corpus() {
 		emit("corpus", c)
 	}
 
-	// generated: one trusted_proxies list per group, several peers x header sets per list
+	// generated: one pair of trusted_proxies lists per group, several peers x header sets per group
 	const perList = 12
 
-	for g := 0; idx < n+len(c09Corpus())-c09SocketCases; g++ {
+	limit := n + len(c09Corpus()) - c09SocketCases
+
+	for g := 0; rn.idx < limit; g++ {
 		gr := root.Fork(uint64(g))
-		trusted, set := c09GenTrusted(gr)
-		proxy := gr.Bool()
+		c0 := c09Case{Proxy: gr.Bool(), DecisionTP: c09GenList(gr), ProxyTP: c09GenList(gr), LogLevel: vf.Pick(gr, []string{"info", "info", "trace"})}
 
-		for k := 0; k < perList && idx < n+len(c09Corpus())-c09SocketCases; k++ {
-			c := c09Case{Proxy: proxy, Trusted: trusted, SetTrusted: set, Req: c09GenReq(gr.Fork(uint64(1000 + k)))}
+		for k := 0; k < perList && rn.idx < limit; k++ {
+			c := c0
+			kr := gr.Fork(uint64(1000 + k))
+			c.Req = c09GenReq(kr, fmt.Sprintf("zq%x%x", vf.Seed()&0xfff, rn.idx))
 
-			// aim half of the peers at the list (so that trusted cases are frequent)
-			if len(trusted) > 0 && gr.Chance(45) {
-				c.Req.Peer = c09PeerFor(gr, vf.Pick(gr, trusted), c.Req.Peer)
+			// aim most peers at one of the lists (so that trusted cases, near misses and the other service's entries are frequent)
+			if own := c.own(); len(own) > 0 && kr.Chance(55) {
+				c.Req.Peer = c09PeerFor(kr, vf.Pick(kr, own), c.Req.Peer)
+			} else if kr.Chance(20) {
+				other := c.ProxyTP
+				if c.Proxy {
+					other = c.DecisionTP
+				}
+
+				if other != nil && len(*other) > 0 {
+					c.Req.Peer = c09PeerFor(kr, vf.Pick(kr, *other), c.Req.Peer)
+				}
 			}
 
 			emit("generated", c)
@@ -900,42 +1842,21 @@ func TestVerifC09(t *testing.T) {
 	}
 
 	// real sockets: the assembled services listening on 127.0.0.1, peers 127.0.0.x / 127.0.1.x
-	c09SocketStream(t, w, up, rules, root, &idx)
+	c09SocketStream(rn, root)
 }
 
-// a peer address that the entry covers, when the entry is valid
-func c09PeerFor(r *vf.Rand, entry, def string) string {
-	if strings.Contains(entry, "/") {
-		_, n, err := net.ParseCIDR(entry)
-		if err != nil {
-			return def
-		}
+func (rn *c09Runner) put(stream string, c c09Case, loadedOK bool, or c09Oracle, ro c09RawObs) {
+	tags, nt := c09Tags(c, or, ro.obs)
+	extra := map[string]any{}
 
-		ip := make(net.IP, len(n.IP))
-		copy(ip, n.IP)
-
-		for i := range ip { // random host bits
-			ip[i] |= ^n.Mask[i] & byte(r.Intn(256))
-		}
-
-		return net.JoinHostPort(ip.String(), "4711")
+	if len(ro.obs.Pair) > 0 || len(ro.obs.Leaks) > 0 || ro.obs.Err != "" {
+		extra["sinks"] = ro.sinks // for the reader of a replay file
 	}
 
-	ip := net.ParseIP(entry)
-	if ip == nil {
-		return vf.Pick(r, c09BadPeers)
-	}
-
-	if v4 := ip.To4(); v4 != nil && r.Chance(30) {
-		return "[::ffff:" + v4.String() + "]:4711"
-	}
-
-	return net.JoinHostPort(ip.String(), "4711")
+	rn.w.Put(vf.Obs{I: rn.idx, Stream: stream, In: c, Out: ro.obs, Coq: c09Coq(c, loadedOK, or, ro.obs), Nontrivial: nt, Tags: tags, Extra: extra})
 }
 
-const c09SocketCases = 40
-
-func c09SocketStream(t *testing.T, w *vf.Writer, up *assembly.Upstream, rules string, root *vf.Rand, idx *int) {
+func c09SocketStream(rn *c09Runner, root *vf.Rand) {
 	lists := [][]string{{"127.0.0.2"}, {"127.0.1.0/24", "not-an-ip"}, {}, {"::ffff:127.0.0.3", "10.0.0.0/8"}}
 	locals := []string{"127.0.0.1", "127.0.0.2", "127.0.0.3", "127.0.1.5", "127.0.2.5"}
 	per := c09SocketCases / (2 * len(lists))
@@ -944,51 +1865,79 @@ func c09SocketStream(t *testing.T, w *vf.Writer, up *assembly.Upstream, rules st
 		for _, proxy := range []bool{false, true} {
 			need := false
 			for k := 0; k < per; k++ {
-				if vf.Want(*idx + k) {
+				if vf.Want(rn.idx + k) {
 					need = true
 				}
 			}
 
 			if !need {
-				*idx += per
+				rn.idx += per
 
 				continue
 			}
 
-			cfg := c09Config(proxy, trusted, true)
-			mode := assembly.Decision
+			own := trusted
+			other := []string{"127.0.0.0/8"} // the other service trusts every loopback peer: must not matter
+			c0 := c09Case{Proxy: proxy, LogLevel: "info"}
 
+			if proxy {
+				c0.ProxyTP, c0.DecisionTP = &own, &other
+			} else {
+				c0.DecisionTP, c0.ProxyTP = &own, &other
+			}
+
+			mode := assembly.Decision
 			if proxy {
 				mode = assembly.Proxy
 			}
 
 			// heimdall's own http.Server object on a listener the harness holds (no free-port race)
-			app, err := assembly.StartListening(mode, cfg, rules)
+			app, err := assembly.StartListening(mode, c09Config(c0), rn.rules)
 			if err != nil {
-				t.Fatalf("socket stream: %v", err)
+				rn.t.Fatalf("socket stream: %v", err)
 			}
 
+			loadedOK := c09SameList(app.Conf.Serve.Decision.TrustedProxies, c0.DecisionTP) &&
+				c09SameList(app.Conf.Serve.Proxy.TrustedProxies, c0.ProxyTP)
+
 			for k := 0; k < per; k++ {
-				if vf.Want(*idx) {
+				if vf.Want(rn.idx) {
 					r := root.Fork(uint64(900000 + li*100 + k))
-					c := c09Case{Proxy: proxy, Trusted: trusted, SetTrusted: true, Req: c09GenReq(r)}
+					c := c0
+					c.Req = c09GenReq(r, fmt.Sprintf("zs%x%x", vf.Seed()&0xfff, rn.idx))
 					c.Req.Socket = true
 					c.Req.TLS = false
-					local := vf.Pick(r, locals)
-					c.Req.Peer = local + ":0"
+
+					if c.Req.Proto == "h2" {
+						c.Req.Proto = ""
+					}
+
+					// no connection upgrade over the plain request/response exchange of the socket driver
+					hs := c.Req.Headers[:0:0]
+					for _, h := range c.Req.Headers {
+						if h.Name != "Upgrade" && h.Name != "Connection" {
+							hs = append(hs, h)
+						}
+					}
+
+					c.Req.Headers = hs
+					c.Req.Peer = vf.Pick(r, locals) + ":0"
 
 					or := c09OracleOf(c)
 					if or.parseErr == "" {
-						o := c09ObserveSocket(app, up, c)
-						tags, nt := c09Tags(c, trusted, or, o)
-						w.Put(vf.Obs{I: *idx, Stream: "socket", In: c, Out: o, Coq: c09Coq(c, trusted, or, o), Nontrivial: nt, Tags: tags})
+						full := c09ObserveSocket(app, rn.up, rn.lg, c)
+						base := c09ObserveSocket(app, rn.up, rn.lg, c09Baseline(c))
+						full.obs.Pair, full.obs.Leaks = c09Compare(full, base, c.Req)
+						rn.put("socket", c, loadedOK, or, full)
 					}
 				}
 
-				*idx++
+				rn.idx++
 			}
 
 			app.Stop()
 		}
 	}
 }
+
+var _ = sort.Strings
